@@ -83,7 +83,7 @@ Proof.
   cbn [dapply_all] in A2. destruct (dapply d1 i c) as [[d2 res]|] eqn:E; [|discriminate].
   destruct (dapply_all d2 (skipn (S n) H)) as [[d3 rs]|]; [|discriminate]. inv A2.
   exists d2, res. split; [reflexivity|]. split.
-  - rewrite nth_error_app2 by lia. rewrite firstn_length_le in A4 by lia. rewrite A4, Nat.sub_diag. reflexivity.
+  - rewrite firstn_length_le in A4 by lia. rewrite nth_error_app2 by lia. rewrite A4, Nat.sub_diag. reflexivity.
   - rewrite (firstn_S_nth _ _ _ Hn). eapply dapply_all_snoc; eauto.
 Qed.
 
@@ -160,3 +160,21 @@ Proof.
     destruct (redeliver_one _ _ _ _ i c Hrn (nth_error_firstn_in _ _ _ _ Hlt Hn)) as [r1 E1].
     destruct (dapply_apply d v i c d r1 E1 Hver) as [v1 Ea]. exists (d, v1), r1. split; [exact Ea|]. split; [intros; lia|reflexivity].
 Qed.
+
+(* ---------- non-vacuity helpers ---------- *)
+
+Lemma shist_of_run : forall cs h past s s' r, shist h past s -> Forall (fun e => simple_sub (snd e)) cs ->
+  apply_all s cs = Some (s', r) -> exists past', shist (h ++ cs) past' s'.
+Proof.
+  induction cs as [|[i c] cs IH]; intros h past s s' r Hr Hs Ha; cbn [apply_all] in Ha.
+  - inv Ha. rewrite app_nil_r. eauto.
+  - destruct (apply s i c) as [[s1 res]|] eqn:E; [|discriminate].
+    destruct (apply_all s1 cs) as [[s2 rs]|] eqn:E2; [|discriminate]. inv Ha. inversion Hs; subst.
+    assert (R1 : shist (h ++ [(i, c)]) (fst s1 :: past) s1) by (eapply sh_step; eauto; apply simple_submittable; auto).
+    destruct (IH _ _ _ _ _ R1 H2 E2) as [past' R2]. rewrite <- app_assoc in R2. eauto.
+Qed.
+
+Definition nxt (s : state) (i : N) (c : cmd) : state := match apply s i c with Some (s', _) => s' | None => s end.
+Definition res (s : state) (i : N) (c : cmd) : list N := match apply s i c with Some (_, r) => r | None => [] end.
+Lemma apply_nxt : forall s i c, apply s i c <> None -> apply s i c = Some (nxt s i c, res s i c).
+Proof. intros s i c H. unfold nxt, res. destruct (apply s i c) as [[s' r]|]; [reflexivity|contradiction]. Qed.
